@@ -46,7 +46,7 @@ META["C07"] = dict(
 )
 
 META["C01"] = dict(
-    text="Lean 4 invariant proof over an executable model of pubsub::Topic::poll, FanoutMany and StreamMap with scripted children: c01_exactly_once_in_order (for every history and every subscriber: got ++ buffered = accepted.drop regAt; evicted sinks got a prefix), c01_nothing_left_behind / c01_delivered_and_flushed (when a poll ends not blocked by a subscriber nothing accepted is undelivered or unflushed), c01_ended_publisher_fully_accepted / c01_subscriber_gets_all_of_an_ended_publisher (a publisher that has gone was forwarded completely); induction over polls of any length, all scripts, all StreamMap starts; the hand model is tied to the code by replaying every scenario on the real Topic and comparing every child call",
+    text="Lean 4 invariant proof over an executable model of pubsub::Topic::poll, FanoutMany and StreamMap with scripted children: c01_exactly_once_in_order (for every history and every subscriber: got ++ buffered = accepted.drop regAt; evicted sinks got a prefix), c01_nothing_left_behind / c01_delivered_and_flushed (when a poll ends not blocked by a subscriber nothing accepted is undelivered or unflushed), c01_ended_publisher_fully_accepted / c01_subscriber_gets_all_of_an_ended_publisher (a publisher that has gone was forwarded completely); induction over polls of any length, all scripts, all StreamMap starts; the hand model is tied to the code by replaying every scenario on the real Topic and comparing every child call; every topic of a whole server (Server/System: handle_stream's registry composed with one router per name): c01_every_topic_of_the_server, c01_no_other_topic_interferes (the state of topic n, hence everything its subscribers are handed, is unchanged by deleting every event that does not mention n), c01_topic_router_sees_only_its_own_events",
     design_ref="DESIGN.md section 6, C01",
     note="trusts the mpsc / StreamMap / waker contracts as stated, the correspondence harness, and the Lean kernel",
     technique="Lean 4 invariant proof over hand model + trace-level differential correspondence",
@@ -58,13 +58,13 @@ META["C08"] = dict(
     technique="Lean 4 proof over hand model + fault-script differential correspondence",
 )
 META["C09"] = dict(
-    text="Lean 4 theorems: c09_pubsub_terminates (a poll needs at most work(s)+1 loop iterations, work = queued registrations + answers the publisher streams hold), c09_pubsub_channel_drained and c09_pubsub_no_unflushed_work (whenever it yields not blocked by a subscriber, the channel is empty and holds the waker and nothing is unwritten or unflushed), c09_pubsub_calm_never_blocked; the real Topic is driven by a wake-driven executor and compared with the model including skipped polls",
+    text="Lean 4 theorems: c09_pubsub_terminates (a poll needs at most work(s)+1 loop iterations, work = queued registrations + answers the publisher streams hold), c09_pubsub_channel_drained and c09_pubsub_no_unflushed_work (whenever it yields not blocked by a subscriber, the channel is empty and holds the waker and nothing is unwritten or unflushed), c09_pubsub_calm_never_blocked; the real Topic is driven by a wake-driven executor and compared with the model including skipped polls; across polls: c09_pubsub_pending_poll_makes_progress (a poll that ends blocked on a subscriber or waiting for publishers has used up an answer its peers held; none adds one) and c09_pubsub_wake_driven_executor_delivers (from any reachable state a wake-driven executor needs at most measure(s) further polls until a poll ends idle or finished, and then everything accepted is handed over and flushed); request/reply half: c09_reqrep_no_unflushed_work (a poll that ends waiting holds no reply back and has flushed every requestor sink and the replier's sink)",
     design_ref="DESIGN.md section 6, C09",
     note="pub/sub half; request/reply half in the second part of Props/C09.lean when present",
     technique="Lean 4 termination-bound and quiescence proofs + wake-driven differential correspondence",
 )
 META["C16"] = dict(
-    text="Lean 4 theorems: after close a poll from any state finishes or is blocked on a pending subscriber sink (c16_pubsub_closed_outcome), with subscribers able to accept data it finishes within work(s)+1 iterations (c16_pubsub_finishes), and at completion everything taken from a publisher is handed over and flushed (c16_pubsub_finishes_flushed), and it takes nothing more from any publisher / requestor / replier stream once closed, however much they still hold (c16_pubsub_closed_takes_nothing_more, c16_reqrep_closed_takes_nothing_more); same outcome theorem for the request/reply router (c16_reqrep_closed_outcome); the real Topic's channel is closed in many states and compared with the model; server level: a real server sent SIGINT in a process of its own with peers in eight states must return from listen()",
+    text="Lean 4 theorems: after close a poll from any state finishes or is blocked on a pending subscriber sink (c16_pubsub_closed_outcome), with subscribers able to accept data it finishes within work(s)+1 iterations (c16_pubsub_finishes), and at completion everything taken from a publisher is handed over and flushed (c16_pubsub_finishes_flushed), and it takes nothing more from any publisher / requestor / replier stream once closed, however much they still hold (c16_pubsub_closed_takes_nothing_more, c16_reqrep_closed_takes_nothing_more); same outcome theorem for the request/reply router (c16_reqrep_closed_outcome); the real Topic's channel is closed in many states and compared with the model; server level: a real server sent SIGINT in a process of its own with peers in eight states must return from listen(); c16_pubsub_shutdown_completes (closed, any scripts, any reachable state: the wake-driven executor reaches Ready within measure(s) polls with everything flushed), c16_shutdown_closes_every_topic and c16_server_shutdown_every_pubsub_topic_completes over the whole-server model (Server::shutdown closes every topic's channel), c16_reqrep_done_flushed",
     design_ref="DESIGN.md section 6, C16",
     note="the request/reply router drops a reply it still holds at shutdown (judged outside the statement, which speaks of publishers' messages: DESIGN.md section 8)",
     technique="Lean 4 proof over hand model + differential correspondence",
@@ -97,7 +97,7 @@ META["C03"] = dict(
 )
 
 META["C04"] = dict(
-    text="Lean 4 invariant proof over a model of the state shared by a Requestor and its clones (id counter, pending-request map, per-call timeout, reply reader) against an adversarial reply stream: c04_own_reply (every delivered reply carries exactly the id of the call that got it; a reply goes to at most one call and a call gets at most one reply), c04_late_reply_dropped, c04_timeout, c04_ids_distinct (< 2^32 calls); plus the honest exchange closed end to end over the models of the library Replier (listen answers in order with the request's own headers), the router's tagging / routing and the decimal printing / parsing of both ids: c04_replier_answers_in_order_with_request_headers, c04_echoed_reply_reaches_its_requestor, c04_request_id_roundtrip, c04_honest_exchange_completes; composed with C02 for separate streams; tied to the code by running real requestors against a scripted raw replier, and a real Replier against a raw requestor, over loopback QUIC",
+    text="Lean 4 invariant proof over a model of the state shared by a Requestor and its clones (id counter, pending-request map, per-call timeout, reply reader) against an adversarial reply stream: c04_own_reply (every delivered reply carries exactly the id of the call that got it; a reply goes to at most one call and a call gets at most one reply), c04_late_reply_dropped, c04_timeout, c04_ids_distinct (< 2^32 calls); plus the honest exchange closed end to end over the models of the library Replier (listen answers in order with the request's own headers), the router's tagging / routing and the decimal printing / parsing of both ids: c04_replier_answers_in_order_with_request_headers, c04_echoed_reply_reaches_its_requestor, c04_request_id_roundtrip, c04_honest_exchange_completes; composed with C02 for separate streams; tied to the code by running real requestors against a scripted raw replier, and a real Replier against a raw requestor, over loopback QUIC; the server's routing (reqrep suite) and a requestor whose connection is cut while other streams hold requests with the same req_id (rqdead) are part of the check",
     design_ref="DESIGN.md section 6, C04",
     note="trusts tokio oneshot/timeout and the transport; cross-stream isolation is C02",
     technique="Lean 4 invariant proof over hand model + end-to-end differential correspondence",
